@@ -465,7 +465,12 @@ def oracle(ctx, c, o, pv, tol):
         r2 = o2["res"]
         if r2[0] != "ok" or not (np.array_equal(r2[1], left) and np.array_equal(r2[2], right)) or \
                 not (o2["levels"] is not None and lv is not None and np.array_equal(o2["levels"], lv)):
-            ctx.fail(feat(c, "not-reproducible"), cj(c), "interval Monte Carlo with the same seed and dependency gives a different p-box")
+            diag = {"res2": r2[0]}
+            if r2[0] == "ok":
+                diag.update(left_maxdiff=float(np.max(np.abs(r2[1] - left))), right_maxdiff=float(np.max(np.abs(r2[2] - right))),
+                            levels_equal=bool(o2["levels"] is not None and lv is not None and np.array_equal(o2["levels"], lv)),
+                            n_left_diff=int(np.sum(r2[1] != left)), n_right_diff=int(np.sum(r2[2] != right)))
+            ctx.fail(feat(c, "not-reproducible"), cj(c, diag=diag), "interval Monte Carlo with the same seed and dependency gives a different p-box")
         # ... also when the very same Dependency object is used again (a second draw must restart the stream)
         if o.get("dep_obj") is not None:
             o4 = run_mixed(c, dep_obj=o["dep_obj"])
